@@ -65,9 +65,9 @@ def configs(tier, seed):
             r0, c0 = rng.randrange(S0[0]), rng.randrange(S0[1])
             out[-1]['omask'] = [r0, rng.randrange(r0, S0[0]), c0, rng.randrange(c0, S0[1])]
         if rng.random() < 0.3:
-            out[-1]['pre'] = rng.choice([[1, 0], [0, -1], ['1/2', '-3/4'], [-1, 1]])
+            out[-1]['pre'] = rng.choice([['4/3', '1/3'], ['-1/3', '-4/3'], ['1/3', '-2/3'], ['-2/3', '5/3']])      # thirds before, fifths after: no sum (x oversample) is a whole number of samples
         if rng.random() < 0.45:
-            out[-1]['post'] = rng.choice(['default', 'scalar', 'scalar', ['tilt', 0, 1], ['tilt', '-1/2', '1/4'], ['tilt', 1, -1]])
+            out[-1]['post'] = rng.choice(['default', 'scalar', 'scalar', ['tilt', '1/5', '6/5'], ['tilt', '-3/5', '2/5'], ['tilt', '6/5', '-4/5']])
     fixed = [
         # nested bounding boxes: block 0 surrounds block 1
         {'n': [3, 3], 'blocks': [[[0, 0], [2, 2], [0, 2], [2, 0]], [[1, 1]]], 'second': None, 'os': 2, 'shape': [3, 3], 'prop': [3, 3]},
@@ -79,8 +79,8 @@ def configs(tier, seed):
         # an off-centre aperture followed by planes that carry no arrays; tilts before and after a segmented aperture
         {'n': [3, 3], 'blocks': [[[0, 2]], [[1, 2], [0, 1]]], 'second': None, 'os': 1, 'shape': [3, 3], 'prop': [3, 3], 'post': 'default'},
         {'n': [2, 3], 'blocks': [[[0, 2], [1, 2]]], 'second': None, 'os': 2, 'shape': [3, 3], 'prop': [3, 3], 'post': 'scalar'},
-        {'n': [3, 3], 'blocks': [[[0, 0]], [[2, 2]], [[0, 2]]], 'second': None, 'os': 1, 'shape': [4, 4], 'prop': [4, 4], 'pre': [1, 0], 'post': ['tilt', 0, 1]},
-        {'n': [3, 2], 'blocks': [[[0, 0], [1, 1]], [[2, 1]]], 'second': [[[0, 0], [2, 1]], [[1, 1]]], 'os': 1, 'shape': [3, 3], 'prop': [3, 3], 'pre': ['1/2', '-3/4'], 'post': ['tilt', 1, -1]},
+        {'n': [3, 3], 'blocks': [[[0, 0]], [[2, 2]], [[0, 2]]], 'second': None, 'os': 1, 'shape': [4, 4], 'prop': [4, 4], 'pre': ['4/3', '1/3'], 'post': ['tilt', '1/5', '6/5']},
+        {'n': [3, 2], 'blocks': [[[0, 0], [1, 1]], [[2, 1]]], 'second': [[[0, 0], [2, 1]], [[1, 1]]], 'os': 1, 'shape': [3, 3], 'prop': [3, 3], 'pre': ['1/3', '-2/3'], 'post': ['tilt', '6/5', '-4/5']},
         # planes returned by rescale(): the segmented description is rescaled segment by segment, the result is the same
         {'n': [2, 3], 'blocks': [[[0, 0], [1, 0]], [[0, 2], [1, 2], [1, 1]]], 'second': None, 'os': 1, 'shape': [2, 2], 'prop': [2, 2], 'rescale': '2'},
         {'n': [2, 2], 'blocks': [[[0, 0]], [[0, 1], [1, 1]]], 'second': None, 'os': 1, 'shape': [2, 3], 'prop': [2, 3], 'rescale': '2'},
@@ -120,7 +120,8 @@ def run(W, cfg):
         variants['cube'] = lt.Pupil(amplitude=A, opd=O, mask=stack.copy(), pixelscale=dx, focal_length=f)
     if cfg.get('segtilt') and len(cfg['blocks']) >= 2 and not cfg.get('pre') and not cfg.get('post') and not cfg.get('rescale'):
         from fractions import Fraction as _Ft
-        subs = [(_Ft(1, 4), _Ft(-1, 2)), (_Ft(-3, 4), _Ft(1, 4)), (_Ft(1, 8), _Ft(5, 8)), (_Ft(-1, 2), _Ft(-1, 8))]
+        # below half a sample at oversample 1 and 2, never on a whole sample: every segment keeps the undisplaced window
+        subs = [(_Ft(1, 3), _Ft(-2, 5)), (_Ft(-1, 3), _Ft(1, 5)), (_Ft(1, 5), _Ft(2, 5)), (_Ft(-2, 5), _Ft(-1, 3))]
         angs = [(W.const(subs[g][0]) * du[0] / (f * cfg['os']), -(W.const(subs[g][1]) * du[1]) / (f * cfg['os'])) for g in range(len(cfg['blocks']))]
         ramp = W.zeros(shp)
         for g, b in enumerate(cfg['blocks']):
